@@ -1,6 +1,8 @@
 package drv
 
 import (
+	"strings"
+
 	"encoding/hex"
 	"encoding/json"
 	"fmt"
@@ -117,7 +119,11 @@ func (g *c13Engine) Reproduce(pl interface{}) (*Violation, error) {
 	if err != nil {
 		return nil, err
 	}
-	for try := 0; try < 6; try++ {
+	tries := 6
+	if len(hp.Ops) == 1 {
+		tries = 128 // one call alone against its own solo outcome: the canonical form of "not a function of its arguments"
+	}
+	for try := 0; try < tries; try++ {
 		_, v, err := g.run(hp)
 		if err != nil {
 			return nil, err
@@ -144,6 +150,20 @@ func (g *c13Engine) Minimise(v *Violation) *Violation {
 			t.Ops = append(t.Ops, hp.Ops[i])
 		}
 		return &t
+	}
+	// does some call of the history diverge all by itself (a tree whose results are not even a function of
+	// the arguments, e.g. through randomised map iteration)? then that single call is the minimal plan
+	if strings.HasPrefix(v.Class, "diverge:") {
+		for i := range hp.Ops {
+			if !strings.Contains(v.Key, hp.Ops[i].Key()) {
+				continue
+			}
+			one := sub([]int{i})
+			if got, err := g.Reproduce(one); err == nil && got != nil && got.Class == v.Class {
+				return got
+			}
+			break
+		}
 	}
 	keep := DDMin(len(hp.Ops), func(k []int) bool {
 		_, got, err := g.run(sub(k))
